@@ -94,7 +94,7 @@ theorem sortLevel0_spec {T : Tun} {hra : Bool} (cs : List (Compactor ρ)) (hinv 
 theorem afterRank_SInv {T : Tun} (s : Sketch ρ) (h : SInv T s) : SInv T s.afterRank ∧ entered0 s.afterRank = entered0 s := by
   obtain ⟨a1, a2, a3, a4, a5, a6, a7, _⟩ := sortAll_spec 0 s.compactors h.cs
   have hent : entered0 s.afterRank = entered0 s := a7
-  refine ⟨⟨h.k2, a1, ?_, ?_, ?_, ?_, ?_, ?_, ?_, ?_, ?_⟩, hent⟩
+  refine ⟨⟨h.k2, a1, ?_, ?_, ?_, ?_, ?_, ?_, ?_, ?_, ?_, ?_⟩, hent⟩
   · intro e; have := a6; simp only [Sketch.afterRank] at e; rw [e] at this
     exact h.nonnil (List.length_eq_zero_iff.1 this.symm)
   · show s.numRetained = sumItems (sortAll s.compactors); rw [a2]; exact h.ret
@@ -105,11 +105,18 @@ theorem afterRank_SInv {T : Tun} (s : Sketch ρ) (h : SInv T s) : SInv T s.after
   · rw [hent]; exact h.ent
   · rw [hent]; exact h.mn
   · rw [hent]; exact h.mx
+  · intro c hc p
+    obtain ⟨c0, hc0⟩ := List.length_eq_one_iff.1 (by rw [← a6]; show (sortAll s.compactors).length = 1; rw [show sortAll s.compactors = [c] from hc]; rfl : s.compactors.length = 1)
+    have : c = c0.sort := by
+      have : sortAll s.compactors = [c] := hc
+      rw [hc0] at this; simpa [sortAll] using this.symm
+    subst this
+    rw [sort_cntP, (sort_fields c0).2.2.2.2.2.2.1]; exact h.ex c0 hc0 p
 
 theorem afterView_SInv {T : Tun} (s : Sketch ρ) (h : SInv T s) : SInv T s.afterView ∧ entered0 s.afterView = entered0 s := by
   obtain ⟨a1, a2, a3, a4, a5, a6, a7, _⟩ := sortLevel0_spec s.compactors h.cs
   have hent : entered0 s.afterView = entered0 s := a7
-  refine ⟨⟨h.k2, a1, ?_, ?_, ?_, ?_, ?_, ?_, ?_, ?_, ?_⟩, hent⟩
+  refine ⟨⟨h.k2, a1, ?_, ?_, ?_, ?_, ?_, ?_, ?_, ?_, ?_, ?_⟩, hent⟩
   · intro e; have := a6; simp only [Sketch.afterView] at e; rw [e] at this
     exact h.nonnil (List.length_eq_zero_iff.1 this.symm)
   · show s.numRetained = sumItems (sortLevel0 s.compactors); rw [a2]; exact h.ret
@@ -120,6 +127,13 @@ theorem afterView_SInv {T : Tun} (s : Sketch ρ) (h : SInv T s) : SInv T s.after
   · rw [hent]; exact h.ent
   · rw [hent]; exact h.mn
   · rw [hent]; exact h.mx
+  · intro c hc p
+    obtain ⟨c0, hc0⟩ := List.length_eq_one_iff.1 (by rw [← a6]; show (sortLevel0 s.compactors).length = 1; rw [show sortLevel0 s.compactors = [c] from hc]; rfl : s.compactors.length = 1)
+    have : c = c0.sort := by
+      have : sortLevel0 s.compactors = [c] := hc
+      rw [hc0] at this; simpa [sortLevel0] using this.symm
+    subst this
+    rw [sort_cntP, (sort_fields c0).2.2.2.2.2.2.1]; exact h.ex c0 hc0 p
 
 /-! ### the store refines the specification store -/
 
